@@ -35,7 +35,7 @@ EXPLANATION = (
     "of the reader adds or multiplies an unbounded 32-bit value taken from the input before widening it to "
     "the 64-bit size it is compared with (directly or through a local); (10) a member of the reader object "
     "that is freed outside the destructor is assigned again before the function returns, so the destructor "
-    "cannot free it a second time. (14) an index that was range-checked was checked against the entry count of the very array it then subscripts (R13 index-count: schema leaf arrays by num_leaves, a row group's chunks by its num_columns, ...; the check may sit in a callee the index was handed to) - a row group may claim more chunks than the schema has leaves. Decides these "
+    "cannot free it a second time. (14) an index that was range-checked was checked against the entry count of the very array it then subscripts (R13 index-count: schema leaf arrays by num_leaves, a row group's chunks by its num_columns, ...; the check may sit in a callee the index was handed to) - a row group may claim more chunks than the schema has leaves. (15) R44 as in C08.12: no 64-bit length decoded from the file reaches a `position + length` test unbounded. (16) R45 as in C03.4: no pointer into the footer bytes is stored in parsed metadata (a use after free under the stdio reader). Decides these "
     "clauses, not arithmetic adequacy of every guard outside the grids, total running time, nor leaks "
     "inside zlib/zstd.")
 
@@ -309,6 +309,14 @@ def run(ctx):
     from ..rules import indexspace
     nic = indexspace.check_counts(ctx, P.funcs_under("src/reader/", "src/metadata/schema.c"))
     ctx.floor("C04 range-checked subscripts of counted arrays", nic, 20)
+    ctx.clause("C04.15 a 64-bit length decoded from the file does not reach `position + length` (directly or inside an availability helper) untested: the sum would wrap (rule shared with C08.12)")
+    from ..rules import wrapsum
+    nws = wrapsum.check(ctx, sorted(set(P.rel(f.file) for f in P.lib_functions() if P.rel(f.file).startswith(("src/thrift/", "src/reader/", "src/core/", "src/metadata/")))))
+    ctx.floor("C04 lengths handed to position + length tests", nws, 10)
+    ctx.clause("C04.16 parsed metadata does not point into the footer bytes the stdio reader frees after parsing (rule shared with C03.4)")
+    from ..rules import borrowed
+    nbr, _bn = borrowed.check(ctx, sorted(set(P.rel(f.file) for f in P.lib_functions() if P.rel(f.file).startswith(("src/thrift/", "src/reader/", "src/metadata/", "src/core/")))))
+    ctx.floor("C04 calls of functions that hand out a pointer into the parser's input", nbr, 4)
     ctx.clause("C04.1 untrusted offsets/sizes/counts are validated before they reach a sink")
     ctx.clause("C04.2 recursion bounded")
     ctx.clause("C04.3 reader functions release everything on every path")
